@@ -82,17 +82,40 @@ func (l *Leaf) String() string {
 }
 
 type LeafOptions struct {
-	InlineOK func(*ssa.Function) bool
+	InlineOK func(*ssa.Function) bool // mark calls as OInline nodes, expanded afterwards by ExpandInline (score terms)
+	Inline   func(*ssa.Function) bool // expand calls of these loop-free callees in place while enumerating paths
 	Forward  bool
 	MaxPaths int
 	Effects  bool
+	cache    map[*ssa.Function][]*Leaf
+	stack    map[*ssa.Function]bool
 }
 
-// Leaves enumerates the entry→return paths of a loop-free function.
+// Leaves enumerates the entry→return paths of a loop-free function. With
+// LeafOptions.Inline, calls of the selected (loop-free) callees are expanded in
+// place: the path forks into one continuation per callee path, whose
+// conditions and effects are spliced in with the callee's parameters replaced
+// by the argument terms, and the call's value is bound to the callee's result.
 func Leaves(fn *ssa.Function, opt LeafOptions) ([]*Leaf, error) {
+	if opt.cache == nil {
+		opt.cache = map[*ssa.Function][]*Leaf{}
+		opt.stack = map[*ssa.Function]bool{}
+	}
+	return leaves(fn, opt)
+}
+
+func leaves(fn *ssa.Function, opt LeafOptions) ([]*Leaf, error) {
 	if fn == nil || len(fn.Blocks) == 0 {
 		return nil, fmt.Errorf("function has no body")
 	}
+	if ls, ok := opt.cache[fn]; ok {
+		return ls, nil
+	}
+	if opt.stack[fn] {
+		return nil, fmt.Errorf("%s: recursive call chain", fn.String())
+	}
+	opt.stack[fn] = true
+	defer delete(opt.stack, fn)
 	if opt.MaxPaths == 0 {
 		opt.MaxPaths = 4096
 	}
@@ -103,8 +126,26 @@ func Leaves(fn *ssa.Function, opt LeafOptions) ([]*Leaf, error) {
 		guards []*Term
 		eff    []Effect
 		blocks []int
+		bind   map[ssa.Value]*Term
 	}
 	var err error
+	site := 0
+	addGuard := func(gs []*Term, g *Term) ([]*Term, bool) {
+		if g.Op == OConst && g.C != nil && g.C.Kind() == constant.Bool {
+			return gs, constant.BoolVal(g.C)
+		}
+		ng := NotCond(g).Key()
+		gk := g.Key()
+		for _, og := range gs {
+			if og.Key() == ng {
+				return gs, false
+			}
+			if og.Key() == gk {
+				return gs, true
+			}
+		}
+		return append(append([]*Term{}, gs...), g), true
+	}
 	var walk func(blk, pred *ssa.BasicBlock, st state)
 	walk = func(blk, pred *ssa.BasicBlock, st state) {
 		if err != nil {
@@ -153,84 +194,155 @@ func Leaves(fn *ssa.Function, opt LeafOptions) ([]*Leaf, error) {
 				phi[p] = e
 			}
 		}
-		b := NewBuilder(fn)
-		b.PhiChoice = phi
-		b.Forward = opt.Forward
-		b.InlineOK = opt.InlineOK
-		eff := st.eff
 		blocks := append(append([]int{}, st.blocks...), blk.Index)
-		if opt.Effects {
-			eff = append([]Effect{}, st.eff...)
-			for _, in := range blk.Instrs {
+		mk := func(bind map[ssa.Value]*Term) *Builder {
+			b := NewBuilder(fn)
+			b.PhiChoice = phi
+			b.Forward = opt.Forward
+			b.InlineOK = opt.InlineOK
+			b.Bind = bind
+			return b
+		}
+		var process func(i int, guards []*Term, eff []Effect, bind map[ssa.Value]*Term)
+		process = func(i int, guards []*Term, eff []Effect, bind map[ssa.Value]*Term) {
+			if err != nil {
+				return
+			}
+			b := mk(bind)
+			for ; i < len(blk.Instrs)-1; i++ {
+				in := blk.Instrs[i]
+				if call, ok := in.(*ssa.Call); ok && opt.Inline != nil {
+					if callee := call.Call.StaticCallee(); callee != nil && len(callee.Blocks) > 0 && opt.Inline(callee) {
+						cl, cerr := leaves(callee, opt)
+						if cerr != nil {
+							// a callee that cannot be expanded (it loops, recurses, ...) stays an opaque call
+							goto opaque
+						}
+						var args []*Term
+						for _, a := range call.Call.Args {
+							args = append(args, b.Term(a))
+						}
+						site++
+						off := site * 100000
+						for _, L := range cl {
+							ng := guards
+							ok := true
+							for _, g := range L.Guards {
+								var keep bool
+								ng, keep = addGuard(ng, Subst(renameLocals(g, off), args))
+								if !keep {
+									ok = false
+									break
+								}
+							}
+							if !ok {
+								continue
+							}
+							ne := eff
+							if opt.Effects {
+								ne = append([]Effect{}, eff...)
+								for _, ef := range L.Effects {
+									ce := ef
+									ce.NG = len(ng)
+									if ce.Addr != nil {
+										ce.Addr = Subst(renameLocals(ce.Addr, off), args)
+									}
+									if ce.Key != nil {
+										ce.Key = Subst(renameLocals(ce.Key, off), args)
+									}
+									if ce.Val != nil {
+										ce.Val = Subst(renameLocals(ce.Val, off), args)
+									}
+									ne = append(ne, ce)
+								}
+							}
+							nb := make(map[ssa.Value]*Term, len(bind)+1)
+							for k, v := range bind {
+								nb[k] = v
+							}
+							var rets []*Term
+							for _, r := range L.Ret {
+								rets = append(rets, Subst(renameLocals(r, off), args))
+							}
+							if len(rets) == 1 {
+								nb[call] = rets[0]
+							} else {
+								nb[call] = &Term{Op: "tuple", Args: rets}
+							}
+							process(i+1, ng, ne, nb)
+						}
+						return
+					}
+				}
+			opaque:
+				if !opt.Effects {
+					continue
+				}
 				switch x := in.(type) {
 				case *ssa.Store:
 					a := b.Addr(x.Addr)
 					if isLocalLoc(a) {
 						continue
 					}
-					eff = append(eff, Effect{Kind: "store", Addr: a, Val: b.Term(x.Val), Pos: x.Pos(), NG: len(st.guards)})
+					eff = append(append([]Effect{}, eff...), Effect{Kind: "store", Addr: a, Val: b.Term(x.Val), Pos: x.Pos(), NG: len(guards)})
 				case *ssa.MapUpdate:
-					eff = append(eff, Effect{Kind: "map-update", Addr: b.Term(x.Map), Key: b.Term(x.Key), Val: b.Term(x.Value), Pos: x.Pos(), NG: len(st.guards)})
+					eff = append(append([]Effect{}, eff...), Effect{Kind: "map-update", Addr: b.Term(x.Map), Key: b.Term(x.Key), Val: b.Term(x.Value), Pos: x.Pos(), NG: len(guards)})
 				case *ssa.Call:
-					eff = append(eff, Effect{Kind: "call", Val: b.Term(x), Pos: x.Pos(), NG: len(st.guards)})
+					eff = append(append([]Effect{}, eff...), Effect{Kind: "call", Val: b.Term(x), Pos: x.Pos(), NG: len(guards)})
 				}
+			}
+			last := blk.Instrs[len(blk.Instrs)-1]
+			switch t := last.(type) {
+			case *ssa.Return:
+				lf := &Leaf{Guards: append([]*Term{}, guards...), Pos: t.Pos(), Effects: eff, Blocks: blocks}
+				for _, r := range t.Results {
+					lf.Ret = append(lf.Ret, b.Term(r))
+				}
+				out = append(out, lf)
+			case *ssa.Jump:
+				walk(blk.Succs[0], blk, state{phi, guards, eff, blocks, bind})
+			case *ssa.If:
+				c := b.Term(t.Cond)
+				for i, succ := range blk.Succs {
+					g := c
+					if i == 1 {
+						g = NotCond(c)
+					}
+					gs, keep := addGuard(guards, g)
+					if !keep {
+						continue
+					}
+					walk(succ, blk, state{phi, gs, eff, blocks, bind})
+				}
+			case *ssa.Panic:
+				err = fmt.Errorf("%s: explicit panic at block %d", fn.String(), blk.Index)
+			default:
+				err = fmt.Errorf("%s: unexpected terminator %T", fn.String(), last)
 			}
 		}
-		last := blk.Instrs[len(blk.Instrs)-1]
-		switch t := last.(type) {
-		case *ssa.Return:
-			lf := &Leaf{Guards: append([]*Term{}, st.guards...), Pos: t.Pos(), Effects: eff, Blocks: blocks}
-			for _, r := range t.Results {
-				lf.Ret = append(lf.Ret, b.Term(r))
-			}
-			out = append(out, lf)
-		case *ssa.Jump:
-			walk(blk.Succs[0], blk, state{phi, st.guards, eff, blocks})
-		case *ssa.If:
-			c := b.Term(t.Cond)
-			for i, succ := range blk.Succs {
-				g := c
-				if i == 1 {
-					g = NotCond(c)
-				}
-				if g.Op == OConst && g.C != nil && g.C.Kind() == constant.Bool {
-					if constant.BoolVal(g.C) {
-						walk(succ, blk, state{phi, st.guards, eff, blocks})
-					}
-					continue
-				}
-				// consistency with guards already assumed
-				ng := NotCond(g).Key()
-				gk := g.Key()
-				contra, have := false, false
-				for _, og := range st.guards {
-					if og.Key() == ng {
-						contra = true
-					}
-					if og.Key() == gk {
-						have = true
-					}
-				}
-				if contra {
-					continue
-				}
-				gs := st.guards
-				if !have {
-					gs = append(append([]*Term{}, st.guards...), g)
-				}
-				walk(succ, blk, state{phi, gs, eff, blocks})
-			}
-		case *ssa.Panic:
-			err = fmt.Errorf("%s: explicit panic at block %d", fn.String(), blk.Index)
-		default:
-			err = fmt.Errorf("%s: unexpected terminator %T", fn.String(), last)
-		}
+		process(0, st.guards, st.eff, st.bind)
 	}
-	walk(fn.Blocks[0], nil, state{phi: map[*ssa.Phi]ssa.Value{}})
+	walk(fn.Blocks[0], nil, state{phi: map[*ssa.Phi]ssa.Value{}, bind: map[ssa.Value]*Term{}})
 	if err != nil {
 		return nil, err
 	}
+	opt.cache[fn] = out
 	return out, nil
+}
+
+// renameLocals shifts the identifiers of local allocations / unresolved values of an inlined callee so that
+// they cannot collide with the caller's.
+func renameLocals(t *Term, off int) *Term {
+	return Replace(t, func(x *Term) *Term {
+		switch x.Op {
+		case OAlloc, OPhi, OOpaque, ONext:
+			n := *x
+			n.key = ""
+			n.N = x.N + off
+			return &n
+		}
+		return nil
+	})
 }
 
 // ExpandInline replaces OInline nodes by the callee's leaves (parameters
